@@ -3,9 +3,11 @@ CONSTANTS
   MaxRanges = 2
   Starts = {0, 2, 4, 6}
   MaxQueries = 3
+  NumericAcross = TRUE
 INVARIANT TypeOK
 INVARIANT SelectsAllowed
 INVARIANT OrderIndependent
 INVARIANT DefaultOnlyBelow
+INVARIANT DerivFromSelectedButF30
 INVARIANT SortedOK
 INVARIANT NoStuck
